@@ -204,12 +204,16 @@ func panos(w http.ResponseWriter, q *http.Request) {
      <display-name>%s</display-name>
 %s
      </entry>
+     <entry name="vsys2">
+     <display-name>%s</display-name>
+%s
+     </entry>
     </vsys>
    </entry>
   </devices>
  </result>
 </response>
-`, sc.Hostname, name, sc.Config)
+`, sc.Hostname, name, sc.Config, name, sc.Config)
 	case "change":
 		changes++
 		uncommit++
